@@ -284,7 +284,8 @@ class Roles:
             self.param_roles[k] = 'MIXED'
 
 
-def cache_1(ctx, rep):
+def cache_1(ctx, rep, grammar_only=False):
+    # grammar_only: only the first-level key (which grammar built the tree) is judged - the clause C05 needs
     rep.rule('CACHE-1', 'every access to parser_cache is two-level: first key a grammar hash (flows from sha256 of the '
                         'grammar text), second key the file path')
     prog = ctx.prog
@@ -309,7 +310,7 @@ def cache_1(ctx, rep):
                         n_acc += 1
                         r1 = roles.role(f, first)
                         r2 = roles.role(f, n.slice)
-                        rep.ob('CACHE-1', rel, f.qual, norm(n), r1 == 'HASH' and r2 == 'PATH',
+                        rep.ob('CACHE-1', rel, f.qual, norm(n), r1 == 'HASH' and (grammar_only or r2 == 'PATH'),
                                'cache entry addressed by (%s, %s) instead of (grammar hash, path): first key %s, second key %s'
                                % (r1, r2, norm(first), norm(n.slice)))
                 # single-level accesses other than the eviction rebuild
@@ -330,7 +331,7 @@ def cache_1(ctx, rep):
                                 bad2 = [x for x in seconds if roles.role(f, x.slice) != 'PATH']
                                 n_acc += 1
                                 rep.ob('CACHE-1', rel, f.qual, '%s ... %s[<path>]' % (norm(n), m),
-                                       r1 == 'HASH' and bool(seconds) and not bad2,
+                                       r1 == 'HASH' and bool(seconds) and (grammar_only or not bad2),
                                        'cache entry addressed by (%s, %s) instead of (grammar hash, path)'
                                        % (r1, [roles.role(f, x.slice) for x in seconds]))
                                 continue
